@@ -27,6 +27,9 @@ GRIDS_QUICK = [
     (dict(x=(0, 2), y=(0, 2)), 'all-care-hint', 70),
     (dict(x=(0, 3), y=(-2, 1)), 'random-care', 40),
     (dict(x=(-4, -1), y=(0, 1), z=(0, 1)), 'random-care', 30),
+    # type hints narrower than the bit ranges, predicates that cover the whole care set included
+    (dict(x=(0, 2), y=(-2, 1)), 'hint-narrow', 36),
+    (dict(x=(-3, 1)), 'hint-narrow', 27),
     (dict(x=(0, 1), y=(0, 1), z=(0, 1), w=(0, 1)), 'all-but-two', 0),
 ]
 GRIDS_THOROUGH = [
